@@ -1243,6 +1243,26 @@ fn cmd_emit(a: &Args) {
             }
             continue;
         }
+        if fam == "crlfpair" {
+            // the same text with LF and with CRLF line breaks: two "layouts" in the sense of the layout theorem
+            let mut r = rng.fork();
+            for _ in 0..per {
+                let budget = *r.pick(&[5, 15, 40, 40, 100]);
+                let mls = r.chance(1, 4);
+                let mut g = Grammar::new(&mut r, budget);
+                g.allow_asm = false;
+                g.allow_mls = mls;
+                g.unit();
+                let p = Program { toks: g.out };
+                let cfg = Cfg::random(&mut r);
+                let o = LayoutOpts { comments: r.chance(1, 2), directives: r.chance(1, 3), blank_lines: r.chance(1, 2), crlf: false, tabs: r.chance(1, 3), tight: r.chance(1, 3), line_comments_only: r.chance(1, 2) };
+                let a = if r.chance(1, 4) { render_plain(&p) } else { render_layout(&p, &mut r, o) };
+                let a = a.replace("\r\n", "\n");
+                let b = a.replace('\n', "\r\n");
+                cases.push(Case { stream: stream.clone(), family: fam.clone(), input: a, cfg, cursors: vec![], oracles: oracle_list.clone(), well_formed: true, w2: 80, input2: Some(b), marks: vec![], texts: vec![] });
+            }
+            continue;
+        }
         if fam == "relayout" || fam == "marked" {
             let mut r = rng.fork();
             for _ in 0..per {
@@ -1377,7 +1397,7 @@ fn cmd_emit(a: &Args) {
 }
 
 fn main() {
-    std::panic::set_hook(Box::new(|_| {}));
+    if std::env::var("VERIF_PANIC_MSG").is_err() { std::panic::set_hook(Box::new(|_| {})); }
     let argv: Vec<String> = std::env::args().collect();
     if argv.len() < 2 {
         eprintln!("usage: pv-harness emit --stream S --seed N --count N --out DIR");
